@@ -23,7 +23,8 @@ PREDS = {"C02": ["P_C02_DeliverOnce", "P_C02_ValidateOnce", "P_C02_LocalDup"],
 
 OBLIGATIONS = {
     "C02": ["dup_dropped_at_shouldPush", "dup_dropped_at_markSeen_in_worker", "dup_of_locally_published_id",
-            "local_publish_of_seen_id_returns_nil"],
+            "local_publish_of_seen_id_returns_nil", "dup_inside_one_rpc_on_novalidator_path",
+            "dup_inside_one_rpc_on_novalidator_path_gossipsub", "dup_inside_one_rpc_on_novalidator_path_floodsub"],
     "C04": ["inline_ignore_then_async_accept_stays_ignore", "inline_ignore_plus_async_reject", "throttled_plus_ignore",
             "unknown_verdict", "timeout", "dup_during_validation_then_reject_penalised",
             "dup_during_validation_then_ignore_unpenalised", "local_reject", "dup_after_reject_with_full_queue_penalised"],
@@ -46,9 +47,9 @@ def _q(xs):
     return set('"%s"' % x for x in xs)
 
 
-def _mc_cfg(ids, local, calls, nvmax, qcap, copies, verdicts, space, bug="none", workers=("w1", "w2"), symmetry=True):
+def _mc_cfg(ids, local, calls, nvmax, qcap, copies, verdicts, space, bug="none", workers=("w1", "w2"), symmetry=True, batch=1):
     consts = {"Fwd": {"p1", "p2"}, "Ids": set(ids), "LocalIds": set(local), "Workers": set(workers), "Calls": set(calls),
-              "Subs": {"s1"}, "NVmax": nvmax, "QCap": qcap, "MaxCopies": copies, "Verdicts": _q(verdicts),
+              "Subs": {"s1"}, "NVmax": nvmax, "QCap": qcap, "MaxCopies": copies, "MaxBatch": batch, "Verdicts": _q(verdicts),
               "CfgSpace": "CfgSpace <- " + space, "Bug": '"%s"' % bug}
     return vlib.cfg_text(constants=consts,
                          invariants=["TypeOK"] + PREDS["C02"] + PREDS["C04"], view="View",
@@ -59,28 +60,30 @@ ALL4 = ["A", "R", "I", "U"]
 # (name, cfg text, expected violated invariants (None = must pass), timeout, allow_timeout)
 def mc_plan(thorough):
     plan = [
-        ("verdicts", _mc_cfg(["m1"], ["m1"], ["c1"], 3, 2, 2, ALL4, "CfgC04"), None, 600, False),
+        ("verdicts", _mc_cfg(["m1"], ["m1"], ["c1"], 3, 2, 2, ALL4, "CfgC04", batch=2), None, 600, False),
         ("two-ids", _mc_cfg(["m1", "m2"], [], [], 2, 1, 2, ["A", "R", "I"], "CfgTwo"), None, 900, False),
-        ("c02-races", _mc_cfg(["m1"], ["m1"], ["c1"], 3, 2, 3, ALL4, "CfgC02"), None, 600, False),
-        ("loop-path", _mc_cfg(["m1", "m2"], ["m1"], ["c1"], 0, 2, 2, ["A"], "CfgLoop"), None, 300, False),
+        ("c02-races", _mc_cfg(["m1"], ["m1"], ["c1"], 3, 2, 3, ALL4, "CfgC02", batch=3), None, 600, False),
+        ("loop-path", _mc_cfg(["m1", "m2"], ["m1"], ["c1"], 0, 2, 3, ["A"], "CfgLoop", batch=3), None, 300, False),
     ]
     bugs = [("markSeenLate", "CfgBugA", ["P_C02_ValidateOnce"], 1), ("noCarry", "CfgBugA", ["P_C04_OnlyIfAllAccept", "P_C04_Outcome"], 1),
             ("unknownAccept", "CfgBugA", ["P_C04_OnlyIfAllAccept", "P_C04_Outcome", "P_C04_Local"], 1),
             ("penaliseIgnore", "CfgBugA", ["P_C04_Penalty"], 1), ("localSwallow", "CfgBugA", ["P_C04_Local", "P_C04_OnlyIfAllAccept"], 1),
             ("dupErrReturned", "CfgBugA", ["P_C02_LocalDup"], 1), ("ignoreOverThrottle", "CfgBugB", ["P_C04_Outcome"], 2),
             ("acceptOverrides", "CfgBugB", ["P_C04_OnlyIfAllAccept", "P_C04_Outcome"], 1), ("pushNoMark", "CfgBugL", ["P_C02_DeliverOnce"], 1),
-            ("noSeenCheck", "CfgBugA", ["P_C04_Penalty"], 3)]
+            ("noSeenCheck", "CfgBugA", ["P_C04_Penalty"], 3), ("pushIgnoreResult", "CfgBugL", ["P_C02_DeliverOnce"], 4)]
     for bug, space, expect, shape in bugs:
         if shape == 1:
             cfg = _mc_cfg(["m1"], ["m1"], ["c1"], 2, 2, 2, ALL4, space, bug)
         elif shape == 2:   # needs a second id for the per-validator throttle
             cfg = _mc_cfg(["m1", "m2"], [], [], 2, 2, 1, ["A", "R", "I"], space, bug)
+        elif shape == 4:   # no local publish: only two copies of one id inside ONE RPC both pass shouldPush
+            cfg = _mc_cfg(["m1"], [], [], 0, 2, 2, ["A"], space, bug, batch=2)
         else:              # one worker, queue of one: a copy of a seen id meets a full queue
             cfg = _mc_cfg(["m1", "m2"], [], [], 2, 1, 2, ["A", "R"], space, bug, workers=("w1",))
         plan.append(("bug-" + bug, cfg, expect, 600, False))
     if thorough:
         plan += [
-            ("two-ids-all", _mc_cfg(["m1", "m2"], [], [], 2, 1, 2, ["A", "R", "I"], "CfgTwoAll"), None, 900, True),
+            ("two-ids-all", _mc_cfg(["m1", "m2"], [], [], 2, 1, 2, ["A", "R", "I"], "CfgTwoAll", batch=2), None, 900, True),
             ("verdicts4", _mc_cfg(["m1"], ["m1"], ["c1"], 4, 2, 2, ALL4, "CfgC04"), None, 1200, True),
             ("design-c02", _mc_cfg(["m1", "m2"], ["m1"], ["c1"], 3, 2, 3, ALL4, "CfgC02"), None, 600, True),
             ("two-ids-local", _mc_cfg(["m1", "m2"], ["m1"], ["c1"], 2, 2, 2, ["A", "R", "I"], "CfgTwoAll"), None, 780, True),
@@ -130,6 +133,7 @@ def mkcfg(nv, inl=(), tmo=(), gthr=1, vthr=1, signed=True, subs=1, relay=False, 
 
 
 def msg(p, m): return {"a": "msg", "p": p, "m": m}
+def rpc(p, *ms): return {"a": "rpc", "p": p, "ms": list(ms)}
 def rel(v, m, r): return {"a": "rel", "v": v, "m": m, "r": r}
 def adv(*tv): return {"a": "adv", "tv": [{"v": v, "m": m, "r": r} for v, m, r in tv]}
 def pub(m): return {"a": "pub", "m": m}
@@ -207,6 +211,13 @@ def directed():
     nos = mkcfg(0, signed=False)
     add("loop_path", nos, [msg("p1", "m1"), msg("p2", "m1"), msg("p1", "m2"), msg("p1", "m1")])
     add("loop_path_local", mkcfg(0, signed=False, idfn="content"), [pub("m2"), msg("p1", "m2"), msg("p1", "m1"), pub("m1")])
+    # one RPC whose Publish list repeats a message: shouldPush runs over the whole list before any pushMsg
+    for rt in ("gossipsub", "floodsub"):
+        add("rpc_dup_fastpath_" + rt, mkcfg(0, signed=False, router=rt), [rpc("p1", "m1", "m2", "m1"), rpc("p1", "m1"), msg("p2", "m1"), rpc("p2", "m2", "m3", "m3", "m3")])
+        add("rpc_dup_fastpath_local_" + rt, mkcfg(0, signed=False, router=rt, idfn="content"), [pub("m2"), rpc("p1", "m1", "m2", "m1", "m2"), pub("m1")])
+    add("rpc_dup_sigonly", mkcfg(0), [rpc("p1", "m1", "m1", "m2"), rpc("p2", "m2", "m1")])
+    add("rpc_dup_validators", mkcfg(1, [1]), [rpc("p1", "m1", "m1"), rel(1, "m1", R), rpc("p2", "m1", "m2", "m2"), rel(1, "m2", A)])
+    add("rpc_dup_async", mkcfg(1, []), [rpc("p1", "m1", "m2", "m1"), rel(1, "m1", A), rel(1, "m2", I), rpc("p2", "m2", "m1")])
     add("unsigned_validators", mkcfg(2, [2], signed=False), [msg("p1", "m1"), msg("p2", "m1"), rel(2, "m1", A), rel(1, "m1", R), msg("p2", "m1")])
     add("relay_only", mkcfg(1, [1], subs=0, relay=True), [msg("p1", "m1"), rel(1, "m1", A), msg("p2", "m1"), msg("p1", "m2"), rel(1, "m2", I)])
     add("not_interested", mkcfg(1, [1], subs=0), [msg("p1", "m1"), msg("p2", "m1")])
@@ -228,7 +239,8 @@ def variants(cfg, acts, rng, n):
     # a local publish needs a content-based id: to collide with remote copies, and because the harness names messages by
     # payload while the event tracer reports locally published ones by id only
     idfns = ["content", "topic"] if has_pub or cfg.get("idfn") in ("content", "topic") else ["default", "content", "topic"]
-    allv = [(i, s, r, t) for i in idfns for s in ("first", "last") for r in ("gossipsub", "gossipsub", "floodsub")
+    routers = (cfg["router"],) if cfg.get("router") else ("gossipsub", "gossipsub", "floodsub")
+    allv = [(i, s, r, t) for i in idfns for s in ("first", "last") for r in routers
             for t in ((False, True) if cfg["nv"] > 0 else (False,))]
     rng.shuffle(allv)
     # the first variant is always a gossipsub one (penalties are only observable there)
@@ -281,7 +293,7 @@ def gen_module(cfgs):
 
 def run_gen(ctx, rng, walks, L, name, ncfg=28, min_emit=3):
     consts = {"Fwd": _q(["p1", "p2"]), "Ids": _q(["m1", "m2"]), "LocalIds": _q(["m1"]), "Workers": _q(["w1", "w2"]),
-              "Calls": _q(["c1"]), "Subs": _q(["s1", "s2"]), "NVmax": 4, "QCap": 2, "MaxCopies": 3, "Verdicts": _q(ALL4),
+              "Calls": _q(["c1"]), "Subs": _q(["s1", "s2"]), "NVmax": 4, "QCap": 2, "MaxCopies": 3, "MaxBatch": 3, "Verdicts": _q(ALL4),
               "CfgSpace": "CfgSpace <- GenCfgs", "Bug": '"none"', "L": L, "MinEmit": min_emit, "MaxBlock": 2, "MaxAdv": 1}
     cfg = vlib.cfg_text(init="GInit", next_="GNext", constants=consts, invariants=["Emit", "GenOK"])
     g = vlib.run_tlc(ctx, FAMILY, "GenRun", cfg, mode="sim", simulate="num=%d" % walks, depth=6 * L + 10, workers=1,
@@ -401,6 +413,8 @@ def project(idx, cfg, tr):
         if kind in ("elapse",):
             kind = "adv"
         m = _nm(act.get("m", "")) if act.get("m") else ""
+        ms = [_nm(x) for x in act.get("ms", [])] if kind == "rpc" else []
+        names.update(ms)
         ev = []
         for e in ln["ev"]:
             if e["k"] not in ("Validate", "Deliver", "Reject", "Duplicate"):
@@ -430,7 +444,7 @@ def project(idx, cfg, tr):
         if m and not BLOCKER.match(m):
             names.add(m)
         pen = [{"p": x["p"], "n": x["n"]} for x in ln.get("pen", []) if x["p"] != "pb"] if score else []
-        out.append({"a": kind, "scn": idx, "s": s, "m": m, "p": act.get("p", ""), "ev": ev, "val": val, "fwd": fwd, "ih": ih,
+        out.append({"a": kind, "scn": idx, "s": s, "m": m, "ms": ms, "p": act.get("p", ""), "ev": ev, "val": val, "fwd": fwd, "ih": ih,
                     "dl": dl, "pr": pr, "pen": pen})
     names = sorted(n for n in names if n and not BLOCKER.match(n))
     reset = {"a": "reset", "scn": idx, "s": 0, "m": "", "p": "",
@@ -477,7 +491,7 @@ def validate(ctx, traces, name, lines_per_chunk=6000, timeout=900):
 
 
 def _L(a, scn, s, **kw):
-    d = {"a": a, "scn": scn, "s": s, "m": "", "p": "", "ev": [], "val": [], "fwd": [], "ih": [], "dl": [], "pr": [], "pen": []}
+    d = {"a": a, "scn": scn, "s": s, "m": "", "ms": [], "p": "", "ev": [], "val": [], "fwd": [], "ih": [], "dl": [], "pr": [], "pen": []}
     d.update(kw)
     return d
 
@@ -610,8 +624,13 @@ def coverage_hits(cfg, tr, hits):
             for e in ln["ev"]:
                 if e["k"] == "Duplicate" and e["m"] == ln["m"] and e["via"] == ln["p"] and busy >= cfg["workers"]:
                     hit("dup_dropped_at_shouldPush")
+        if ln["a"] == "rpc" and cfg["nv"] == 0 and not cfg["signed"]:
+            for m in set(ln["ms"]):
+                if ln["ms"].count(m) > 1 and any(e["k"] == "Deliver" and e["m"] == m and not e["self"] for e in ln["ev"]):
+                    hit("dup_inside_one_rpc_on_novalidator_path")
+                    hit("dup_inside_one_rpc_on_novalidator_path_" + cfg.get("router", "gossipsub"))
         for e in ln["ev"]:
-            if e["k"] == "Duplicate" and not (ln["a"] == "msg" and ln["m"] == e["m"]):
+            if e["k"] == "Duplicate" and not (ln["a"] == "msg" and ln["m"] == e["m"]) and not (ln["a"] == "rpc" and e["m"] in ln["ms"]):
                 hit("dup_dropped_at_markSeen_in_worker")
             if e["k"] == "Duplicate" and e["m"] in seen_local_step and seen_local_step[e["m"]] <= ln["s"]:
                 hit("dup_of_locally_published_id")
